@@ -5,6 +5,8 @@ import AriadneModel.Model.SchemaLoad
 import AriadneModel.Model.IntrospectChain
 import AriadneModel.Model.InputGen
 import AriadneModel.Spec.BuildClientSchema
+import AriadneModel.Spec.GqlLexer
+import AriadneModel.Generated.SchemaTextTables
 
 open Lean (Json)
 open Ariadne Ariadne.Wire
@@ -157,6 +159,22 @@ def encClass (c : ClassResult) : Json :=
 def encEnum (e : EnumDecl) : Json :=
   Json.mkObj [("name", e.name), ("members", pairArr e.members)]
 
+/-! lexer -/
+
+def kindName : Spec.GqlLexer.TokKind → String
+  | .punct => "punct"
+  | .name => "Name"
+  | .int => "Int"
+  | .float => "Float"
+  | .string => "String"
+  | .blockString => "BlockString"
+
+def encLex : Except Spec.GqlLexer.LexErr (List Spec.GqlLexer.Tok) → Json
+  | .error .syntax => Json.mkObj [("o", "syntax")]
+  | .error .index => Json.mkObj [("o", "index")]
+  | .ok toks => Json.mkObj [("o", "ok"),
+      ("toks", Json.arr (toks.map fun t => Json.arr #[.str (kindName t.kind), .str (String.ofList t.text)]).toArray)]
+
 def handle (j : Json) : Except String Json := do
   let op ← fieldStr j "op"
   match op with
@@ -183,12 +201,28 @@ def handle (j : Json) : Except String Json := do
     let envPairs ← getPairs j "env"
     let env : String → Option String := fun n => envPairs.lookup n
     let cfg : SourceCfg := ⟨← fieldStr j "schemaPath", ← fieldStr j "remoteUrl", ← getPairs j "headers", ← fieldBool j "verify"⟩
-    match chooseSource env (← fieldBool j "pathExists") cfg with
+    match chooseSourceStaged env (← fieldBool j "pathExists") cfg with
     | .error .noSource => pure (Json.mkObj [("o", "err"), ("kind", "noSource")])
     | .error .pathMissing => pure (Json.mkObj [("o", "err"), ("kind", "pathMissing")])
     | .error (.envMissing n) => pure (Json.mkObj [("o", "err"), ("kind", "envMissing"), ("name", n)])
     | .ok (.path p) => pure (Json.mkObj [("o", "path"), ("p", p)])
     | .ok (.remote c) => pure (Json.mkObj [("o", "remote"), ("url", c.url), ("headers", pairArr c.headers),
+        ("verify", c.verify), ("flags", pairArr c.queryFlags),
+        ("resolvedDollar", c.headers.any fun kv => startsWithDollar kv.2)])
+  | "lex" =>
+    -- graphql-core's lexer on one text; with "texts": on sep.join(texts) (sep defaults to the separator in the source)
+    match j.getObjVal? "texts" with
+    | .ok ts =>
+      let texts ← (← ts.getArr?).toList.mapM (·.getStr?)
+      let sep ← match j.getObjVal? "sep" with
+        | .ok v => v.getStr?
+        | .error _ => pure SchemaTextTables.schemaJoinSeparator
+      pure (encLex (Spec.GqlLexer.lexChars (Spec.GqlLexer.joinWith sep.toList (texts.map (·.toList)))))
+    | .error _ => pure (encLex (Spec.GqlLexer.lex (← fieldStr j "text")))
+  | "urlcall" =>
+    -- get_graphql_schema_from_url / introspect_remote_schema called directly: what they are given is what is sent
+    let c := urlCall (← fieldStr j "url") (← getPairs j "headers") (← fieldBool j "verify")
+    pure (Json.mkObj [("o", "remote"), ("url", c.url), ("headers", pairArr c.headers),
         ("verify", c.verify), ("flags", pairArr c.queryFlags)])
   | "inputs" =>
     let defs ← (← getList j "defs").mapM decDef
